@@ -20,12 +20,12 @@ import (
 // NewWithIssuer is New with the issuer function given by the caller
 // (e.g. op.IssuerFromHost("")); Opts.Issuer stays the default for f.Get/f.Post.
 func NewWithIssuer(store *refstore.Store, o Options, issuer func(bool) (op.IssuerFromRequest, error)) (*Fixture, error) {
-	return NewWithStorage(store, o, issuer, nil)
+	return NewWithIssuerStorage(store, o, issuer, nil)
 }
 
-// NewWithStorage additionally lets the caller wrap the op.Storage the provider sees
+// NewWithIssuerStorage additionally lets the caller wrap the op.Storage the provider sees
 // (e.g. refstore.Failing); wrap == nil keeps it as is.
-func NewWithStorage(store *refstore.Store, o Options, issuer func(bool) (op.IssuerFromRequest, error), wrap func(op.Storage) op.Storage) (*Fixture, error) {
+func NewWithIssuerStorage(store *refstore.Store, o Options, issuer func(bool) (op.IssuerFromRequest, error), wrap func(op.Storage) op.Storage) (*Fixture, error) {
 	if o.Issuer == "" {
 		o.Issuer = Issuer
 	}
